@@ -102,6 +102,10 @@ pub fn run(name: &str, _seed: u64, tier: &str) -> Value {
         "c19_sort" => crate::phys::c19_sort(tier),
         #[cfg(feature = "physics")]
         "c18_grid" => crate::drift::c18_grid(tier),
+        #[cfg(feature = "physics")]
+        "c15_cluster" => crate::recon::c15_cluster(tier, _seed),
+        #[cfg(feature = "physics")]
+        "c15_vertex" => crate::recon::c15_vertex(tier, _seed),
         "c13_dims" => crate::ring::c13_dims(tier),
         "c02_table" => crate::tables::c02_table(tier),
         "c03_table" => crate::tables::c03_table(tier),
